@@ -104,16 +104,21 @@ func (s *secureSession) Decrypt(r io.Reader) (io.Reader, error) {
 			if err == io.EOF {
 				break
 			}
+			// A packet which ends early is an altered packet: the packets which were read
+			// before it in this call are lost and the following ones must not be accepted.
+			s.decryptFailed = true
 			return nil, err
 		}
 
 		var b = make([]byte, length)
 		if err := binary.Read(r, binary.LittleEndian, &b); err != nil {
+			s.decryptFailed = true
 			return nil, err
 		}
 
 		var mac [16]byte
 		if err := binary.Read(r, binary.LittleEndian, &mac); err != nil {
+			s.decryptFailed = true
 			return nil, err
 		}
 
